@@ -253,6 +253,24 @@ func ruleJoin(p *core.Program) []core.Obligation {
 						if fieldSignals && y.Parent() == spawner && helperJoins(y.Call.StaticCallee()) {
 							return true
 						}
+						// the signal channel handed to a helper that receives from it on every path
+						// (c.buffer.receive() on a named channel type)
+						if callee := y.Call.StaticCallee(); callee != nil && callee.Blocks != nil && p.InRepo(callee) {
+							for ai, a := range y.Call.Args {
+								if ai >= len(callee.Params) {
+									break
+								}
+								hit := false
+								for _, s := range sigs {
+									if s.matches(a) {
+										hit = true
+									}
+								}
+								if hit && receivesOnEveryPath(callee, callee.Params[ai]) {
+									return true
+								}
+							}
+						}
 					}
 					return false
 				}
@@ -290,6 +308,51 @@ func ruleJoin(p *core.Program) []core.Obligation {
 					return false
 				}
 				bad := unjoinedReturn(spawner, spawn, isJoin, joinEdge)
+				// a start-up helper (func (c *op) start(ctx) { go c.pull(ctx) ... }) returns at once by design: when
+				// the goroutine signals through a field, the wait is looked for at the helper's call sites
+				// (again through a once.Do closure)
+				for lift := 0; bad != nil && fieldSignals && lift < 2; lift++ {
+					if spawner.Parent() != nil || token.IsExported(spawner.Name()) {
+						break
+					}
+					type siteT struct {
+						fn *ssa.Function
+						at ssa.Instruction
+					}
+					var sites []siteT
+					for _, caller := range p.Funcs {
+						core.EachInstr(caller, func(_ *ssa.BasicBlock, _ int, x ssa.Instruction) {
+							if c, ok := x.(*ssa.Call); ok && c.Call.StaticCallee() == spawner {
+								sites = append(sites, siteT{caller, x})
+							}
+						})
+					}
+					if len(sites) != 1 {
+						break
+					}
+					st := sites[0]
+					if st.fn.Parent() != nil {
+						// the closure handed to once.Do in the parent
+						lifted := false
+						core.EachInstr(st.fn.Parent(), func(_ *ssa.BasicBlock, _ int, x ssa.Instruction) {
+							mc, ok := x.(*ssa.MakeClosure)
+							if !ok || mc.Fn != st.fn {
+								return
+							}
+							for _, r := range core.Referrers(mc) {
+								if cc := core.CallCommon(r); cc != nil && core.IsStatic(cc, "(*sync.Once).Do") {
+									st, lifted = siteT{st.fn.Parent(), r}, true
+								}
+							}
+						})
+						if !lifted {
+							break
+						}
+					}
+					spawner, spawn = st.fn, st.at
+					key = fmt.Sprintf("%s joins go %s", core.FuncName(spawner), core.FuncName(e))
+					bad = unjoinedReturn(spawner, spawn, isJoin, joinEdge)
+				}
 				if bad != nil {
 					obs = append(obs, core.Ob(rule, key, p.Pos(g.Pos()), core.FuncName(spawner), core.Violated,
 						"the return at "+p.Pos(bad.Pos())+" can be reached from the start of the goroutine without waiting for it ("+sigs[0].what+"): the function, and with it Exec, can return while the goroutine is still inside the storage with its querier open"))
@@ -300,6 +363,36 @@ func ruleJoin(p *core.Program) []core.Obligation {
 		})
 	}
 	return obs
+}
+
+// receivesOnEveryPath: every return of fn is dominated by a receive from the channel parameter prm.
+func receivesOnEveryPath(fn *ssa.Function, prm *ssa.Parameter) bool {
+	var recvs []ssa.Instruction
+	core.EachInstr(fn, func(_ *ssa.BasicBlock, _ int, x ssa.Instruction) {
+		if u, ok := x.(*ssa.UnOp); ok && u.Op == token.ARROW && u.X == ssa.Value(prm) {
+			recvs = append(recvs, u)
+		}
+	})
+	if len(recvs) == 0 {
+		return false
+	}
+	all := true
+	core.EachInstr(fn, func(b *ssa.BasicBlock, _ int, x ssa.Instruction) {
+		r, ok := x.(*ssa.Return)
+		if !ok || b == fn.Recover {
+			return
+		}
+		dom := false
+		for _, rc := range recvs {
+			if core.InstrDominates(rc, r) {
+				dom = true
+			}
+		}
+		if !dom {
+			all = false
+		}
+	})
+	return all
 }
 
 // unjoinedReturn searches a path from just after spawn to a return instruction that passes no join.
@@ -1158,37 +1251,73 @@ func init() {
 
 func rulePinnedPlan(p *core.Program) []core.Obligation {
 	const rule = "R-PINNEDPLAN"
-	fn := p.Func("execution", "newOperator")
+	fn := plannerFunc(p)
 	if fn == nil {
 		return []core.Obligation{core.Ob(rule, "execution.newOperator plans below StepInvariantExpr", "-", "", core.Lost, "newOperator not found")}
 	}
 	var obs []core.Obligation
 	k := 0
-	core.EachInstr(fn, func(b *ssa.BasicBlock, i int, ins ssa.Instruction) {
+	// the planning call may sit in newOperator or in a helper of package execution that a case body was moved into
+	for _, host := range p.Funcs {
+		if core.Rel(host.Pkg.Pkg.Path()) != "execution" {
+			continue
+		}
+		obs = append(obs, pinnedPlanIn(p, rule, fn, host, &k)...)
+	}
+	return obs
+}
+
+func pinnedPlanIn(p *core.Program, rule string, fn, host *ssa.Function, kp *int) []core.Obligation {
+	var obs []core.Obligation
+	k := *kp
+	defer func() { *kp = k }()
+	core.EachInstr(host, func(b *ssa.BasicBlock, i int, ins ssa.Instruction) {
 		call, ok := ins.(*ssa.Call)
-		if !ok || call.Call.StaticCallee() != fn || len(call.Call.Args) < 3 {
+		if !ok || call.Call.StaticCallee() != fn {
 			return
 		}
-		// arg0 derives from the Expr field of a *parser.StepInvariantExpr
+		// the expression argument derives from the Expr field of a *parser.StepInvariantExpr
 		fromInvariant := false
-		core.BackSlice(call.Call.Args[0], func(x ssa.Value) bool {
-			if n, f, _, ok := core.FieldRef(x); ok && n != nil && f == "Expr" && n.Obj().Name() == "StepInvariantExpr" && n.Obj().Pkg().Path() == pkgParser {
-				fromInvariant = true
+		for _, a := range call.Call.Args {
+			if !core.TypeIs(a.Type(), pkgParser, "Expr") {
+				continue
 			}
-			return !fromInvariant
-		})
+			core.BackSlice(a, func(x ssa.Value) bool {
+				if n, f, _, ok := core.FieldRef(x); ok && n != nil && f == "Expr" && n.Obj().Name() == "StepInvariantExpr" && n.Obj().Pkg().Path() == pkgParser {
+					fromInvariant = true
+				}
+				return !fromInvariant
+			})
+		}
 		if !fromInvariant {
 			return
 		}
 		k++
 		key := fmt.Sprintf("execution.newOperator plans below StepInvariantExpr #%d with a collapsed window", k)
+		// the options the child is planned with come from WithEndTime: the options argument itself, or the
+		// receiver / builder value that carries them (b.withOptions(opts.WithEndTime(...)).newOperator(...))
 		pinned := false
-		for v := range core.PhiClosure(call.Call.Args[2]) {
-			if c, ok := v.(*ssa.Call); ok && strings.HasSuffix(core.CalleeName(&c.Call), "query.Options).WithEndTime") {
+		for _, a := range call.Call.Args {
+			if core.TypeIs(a.Type(), pkgParser, "Expr") || core.TypeIs(a.Type(), pkgStorage, "SelectHints") {
+				continue
+			}
+			all, some := true, false
+			for v := range core.PhiClosure(a) {
+				found := false
+				core.BackSlice(v, func(x ssa.Value) bool {
+					if c, ok := x.(*ssa.Call); ok && strings.HasSuffix(core.CalleeName(&c.Call), "query.Options).WithEndTime") {
+						found = true
+					}
+					return !found
+				})
+				if found {
+					some = true
+				} else {
+					all = false
+				}
+			}
+			if some && all {
 				pinned = true
-			} else {
-				pinned = false
-				break
 			}
 		}
 		if pinned {
@@ -1777,10 +1906,49 @@ func ruleScalarEnd(p *core.Program) []core.Obligation {
 		}
 		core.EachInstr(fn, func(b *ssa.BasicBlock, i int, ins ssa.Instruction) {
 			call, ok := ins.(*ssa.Call)
-			if !ok || !call.Call.IsInvoke() || call.Call.Method.Name() != "Next" || !isVectorOperatorIface(call.Call.Value.Type()) {
+			if !ok {
 				return
 			}
-			addr := core.Deref(call.Call.Value)
+			// the pull: X.Next(ctx) on the field itself, or a helper of the repository that is handed the field's
+			// operator and pulls from that parameter (readStepParams(ctx, a.paramOp, a.params))
+			var addr ssa.Value
+			batches := map[ssa.Value]bool{}
+			if call.Call.IsInvoke() && call.Call.Method.Name() == "Next" && isVectorOperatorIface(call.Call.Value.Type()) {
+				addr = core.Deref(call.Call.Value)
+				for _, r := range core.Referrers(call) {
+					if ex, ok := r.(*ssa.Extract); ok && ex.Index == 0 {
+						batches[ex] = true
+					}
+				}
+			} else if h := call.Call.StaticCallee(); h != nil && h.Blocks != nil && p.InRepo(h) {
+				for ai, a := range call.Call.Args {
+					if ai >= len(h.Params) || !isVectorOperatorIface(a.Type()) || core.Deref(a) == nil {
+						continue
+					}
+					prm := h.Params[ai]
+					pulls := false
+					core.EachInstr(h, func(_ *ssa.BasicBlock, _ int, x ssa.Instruction) {
+						if c, ok := x.(*ssa.Call); ok && c.Call.IsInvoke() && c.Call.Method.Name() == "Next" && c.Call.Value == ssa.Value(prm) {
+							pulls = true
+						}
+					})
+					if pulls {
+						addr = core.Deref(a)
+					}
+				}
+				if addr != nil {
+					// what the helper hands back stands for the batch (a count, a flag)
+					errT := types.Universe.Lookup("error").Type()
+					if call.Call.Signature().Results().Len() == 1 && !types.Identical(call.Type(), errT) {
+						batches[call] = true
+					}
+					for _, r := range core.Referrers(call) {
+						if ex, ok := r.(*ssa.Extract); ok && !types.Identical(ex.Type(), errT) {
+							batches[ex] = true
+						}
+					}
+				}
+			}
 			if addr == nil {
 				return
 			}
@@ -1794,21 +1962,14 @@ func ruleScalarEnd(p *core.Program) []core.Obligation {
 			}
 			found[fieldKey] = true
 			key := fmt.Sprintf("%s: the batch of %s never ends the stream", core.FuncName(fn), fieldKey)
-			// the batch value
-			var batch ssa.Value
-			for _, r := range core.Referrers(call) {
-				if ex, ok := r.(*ssa.Extract); ok && ex.Index == 0 {
-					batch = ex
-				}
-			}
-			if batch == nil {
+			if len(batches) == 0 {
 				obs = append(obs, core.Ob(rule, key, p.Pos(call.Pos()), core.FuncName(fn), core.Held, "the batch is not used"))
 				return
 			}
 			dependsOnBatch := func(v ssa.Value) bool {
 				hit := false
 				core.BackSlice(v, func(x ssa.Value) bool {
-					if x == batch {
+					if batches[x] {
 						hit = true
 					}
 					if _, isCall := x.(*ssa.Call); isCall {
@@ -2519,22 +2680,31 @@ func ruleDoneParam(p *core.Program) []core.Obligation {
 				if ct, ok := a.(*ssa.ChangeType); ok {
 					a = ct.X
 				}
-				mc, ok := a.(*ssa.MakeClosure)
-				if !ok {
-					continue
+				// the goroutine is handed wg.Done as a function value, or the WaitGroup itself
+				handed := false
+				if mc, ok := a.(*ssa.MakeClosure); ok {
+					if bf, ok := mc.Fn.(*ssa.Function); ok && (strings.HasPrefix(bf.Name(), "Done$bound") || bf.String() == "(*sync.WaitGroup).Done$bound") {
+						handed = true
+					}
 				}
-				bf, ok := mc.Fn.(*ssa.Function)
-				if !ok || !strings.HasPrefix(bf.Name(), "Done$bound") && bf.String() != "(*sync.WaitGroup).Done$bound" {
-					continue
+				if pt, ok := a.Type().Underlying().(*types.Pointer); ok && core.TypeIs(pt.Elem(), "sync", "WaitGroup") {
+					handed = true
 				}
-				if ai >= len(callee.Params) {
+				if !handed || ai >= len(callee.Params) {
 					continue
 				}
 				prm := callee.Params[ai]
 				key := fmt.Sprintf("%s calls the WaitGroup.Done it is handed by %s on every path", core.FuncName(callee), core.FuncName(fn))
 				var calls []ssa.Instruction
 				core.EachInstr(callee, func(_ *ssa.BasicBlock, _ int, x ssa.Instruction) {
-					if cc := core.CallCommon(x); cc != nil && cc.Value == prm {
+					cc := core.CallCommon(x)
+					if cc == nil {
+						return
+					}
+					if cc.Value == prm {
+						calls = append(calls, x)
+					}
+					if core.IsStatic(cc, "(*sync.WaitGroup).Done") && len(cc.Args) == 1 && cc.Args[0] == ssa.Value(prm) {
 						calls = append(calls, x)
 					}
 				})
